@@ -16,7 +16,7 @@ class C09(TreeCheck):
         "initializer, env, context in {loky, loky_init_main, spawn}; interleaved with a task that kills its worker, shutdown(wait=True/False), pauses "
         "and submissions) checked against a 20-line reference model of the factory (identity, id monotonicity, constructor arguments seen by a probe "
         "task, complete shutdown of a replaced instance); multi-threaded programs from g_factory_mt (2-6 racing callers varying only max_workers). "
-        "Profile run, delays (D) in the factory/_resize/shutdown, jitter (Z). Non-trivial = at least two factory calls returned; distinct = (shape, "
+        "Profile run, delays (D) in the factory/_resize/shutdown, pairs of delays in two different threads (DD), jitter (Z). Non-trivial = at least two factory calls returned; distinct = (shape, "
         "mode, injection function, sequence of same/new decisions)."
     )
     assumptions = ["health of the previous instance is sampled by the driver right before the call; calls with a worker death within 1 s before the call are exempt from the identity clause",
@@ -33,6 +33,7 @@ class C09(TreeCheck):
     def derive(self, base, F, rng, tier):
         quick = tier == "quick"
         out = explore.derive_D(F, base, rng, 12 if quick else 36, quals=QUALS)
+        out += explore.derive_DD(F, base, rng, 3 if quick else 8, quals=QUALS)
         out += explore.derive_Z(rng, 3 if quick else 8)
         return out
 
